@@ -105,6 +105,7 @@ func (p *planter) add(kind string, secret, noJSON bool, path string) *Canary {
 	p.cans = append(p.cans, c)
 	return c
 }
+
 // drop forgets the canaries planted under the given path prefixes (the value holding them is not used).
 func (p *planter) drop(prefixes ...string) {
 	var keep []*Canary
